@@ -29,6 +29,12 @@ Answer synthesised by run() when the process died on the request:
 `print` is transported byte-wise (bytes >= 0x80 and control characters as \\u00XX): latin-1 view of the output.
 
 Wire format towards the driver (one line per request): `decode <T> <e> <hex|-> [force] [field=n ...]`.
+
+Knobs: env PROPHY_REPO (default /repo), CPPFULL_CACHE (default /verif/.cache/cppfull), CPPFULL_CXX (default g++;
+clang++-14 compiles the same sources about twice as fast); FullBatch(opt='-O0') for faster builds;
+run(requests, timeout=600, request_timeout=60).
+Attributes after build(): generated {filename: text}, driver_source, build_seconds, prophyc_seconds,
+compile_seconds, cache_hit, cache_key, cache_dir, binary; after run(): run_seconds, restarts.
 """
 import hashlib
 import json
@@ -500,6 +506,7 @@ def fault_string(stderr_text, returncode, base='s0', repo=None, max_frames=3):
     lines = stderr_text.splitlines()
     head = []
     frames = []
+    other = []
     in_first_stack = False
     stack_done = False
     for i, line in enumerate(lines):
@@ -518,7 +525,8 @@ def fault_string(stderr_text, returncode, base='s0', repo=None, max_frames=3):
                     _clean(m.group(4)), os.path.basename(m.group(1)), m.group(2)))
             else:
                 head.append(_clean(line))
-        elif 'The signal is caused by' in line:
+        elif 'The signal is caused by' in line or line.startswith('terminate called') or \
+                line.lstrip().startswith('what():'):
             head.append(_clean(line))
         m = _FRAME.match(line)
         if m and not stack_done:
@@ -531,11 +539,13 @@ def fault_string(stderr_text, returncode, base='s0', repo=None, max_frames=3):
                 fn = os.path.basename(path)
                 mine = (os.path.realpath(path).startswith(os.path.realpath(inc)) or
                         fn in (base + '.ppf.hpp', base + '.ppf.cpp') or '/prophy/' in path)
+                func = re.sub(r'\s+', ' ', func)
+                if len(func) > 160:
+                    func = func[:157] + '...'
                 if mine and len(frames) < max_frames:
-                    func = re.sub(r'\s+', ' ', func)
-                    if len(func) > 160:
-                        func = func[:157] + '...'
                     frames.append('%s:%s in %s' % (fn, loc.group(2), func))
+                elif len(other) < max_frames:
+                    other.append('%s:%s in %s' % (fn, loc.group(2), func))
         elif in_first_stack and not m:
             stack_done = True
     if returncode is not None and returncode < 0:
@@ -548,13 +558,16 @@ def fault_string(stderr_text, returncode, base='s0', repo=None, max_frames=3):
     if not head:
         first = [_clean(x) for x in lines if x.strip() and not x.startswith('====')][:2]
         head.append('exit code %s%s' % (returncode, (': ' + ' | '.join(first)) if first else ''))
-    return '; '.join(head + frames)
+    return '; '.join(head + (frames or other))
 
 
 # ----------------------------------------------------------------------------- batch
 
 class FullBatch(object):
-    def __init__(self, schema_text, type_names, base='s0', trees=None, sanitize=True, jobs_hint=1):
+    def __init__(self, schema_text, type_names, base='s0', trees=None, sanitize=True, jobs_hint=1, opt='-O1'):
+        """jobs_hint >= 2: the two translation units are compiled in parallel;
+        opt: optimisation flag ('-O1' is the reference; '-O0' builds about 2.5 times faster)"""
+        self.opt = opt
         self.schema_text = schema_text
         self.type_names = list(type_names)
         self.base = base
@@ -578,13 +591,19 @@ class FullBatch(object):
     # ---- build
 
     def flags(self):
-        fl = list(BASE_FLAGS)
+        fl = [self.opt if f == '-O1' else f for f in BASE_FLAGS]
         if self.sanitize:
             fl += SAN_FLAGS
         fl.append('-I' + os.path.join(self.repo, 'prophy_cpp', 'include'))
         return fl
 
     def _run_prophyc(self):
+        try:
+            return self._run_prophyc_impl()
+        finally:
+            self.close()   # the generated text is kept in memory; the directory is not needed any more
+
+    def _run_prophyc_impl(self):
         work = tempfile.mkdtemp(prefix='cppfull-gen-')
         self._tmp.append(work)
         src = os.path.join(work, self.base + '.prophy')
@@ -799,7 +818,7 @@ class FullBatch(object):
         fd = proc.stdout.fileno()
         answers = []
         want = len(wires) - start
-        pending = b''
+        pending = []
         fault = None
         timed_out = None
         last_progress = time.time()
@@ -819,10 +838,10 @@ class FullBatch(object):
                 chunk = os.read(fd, 1 << 20)
                 if not chunk:
                     break
-                pending += chunk
+                pending.append(chunk)
                 if b'\n' in chunk:
-                    lines = pending.split(b'\n')
-                    pending = lines.pop()
+                    lines = b''.join(pending).split(b'\n')
+                    pending = [lines.pop()]
                     for ln in lines:
                         try:
                             answers.append(json.loads(ln.decode('ascii')))
@@ -882,5 +901,8 @@ def build_many(batches, jobs=16):
     batches = list(batches)
     if not batches:
         return []
+    if jobs >= 2 * len(batches):
+        for b in batches:
+            b.jobs_hint = max(b.jobs_hint or 1, 2)
     with ThreadPoolExecutor(max_workers=max(1, min(jobs, len(batches)))) as ex:
         return list(ex.map(one, batches))
